@@ -1218,3 +1218,104 @@ func c10r9(rc *core.RC) {
 		rc.Unknown("errors/constructors", token.NoPos, "found %d pointer or interface results of constructors in internal/errors", n)
 	}
 }
+
+// ---- C10.R10 a field query handle is read-only for its own methods ----
+
+// One *FieldQuery may sit in the contexts of many goroutines. Its methods (Hash, MarshalJSON, QueryString) run on
+// every MarshalContext call. Apart from the hash, which is written under queryHashMu (C10.R5), they must not write
+// to the handle: not assign its fields, not store into q.Fields or a local alias of it, not append to it, not sort
+// it in place. `fields := q.Fields; sort.SliceStable(fields, …)` sorts the shared slice: concurrent first uses lose
+// and duplicate selections.
+func c10r10(rc *core.RC) {
+	p := rc.P
+	n := 0
+	for _, fd := range p.Funcs("encoder") {
+		if fd.Body == nil || fd.Recv == nil || len(fd.Recv.List) == 0 || len(fd.Recv.List[0].Names) == 0 {
+			continue
+		}
+		info := p.Info(fd)
+		recv := info.Defs[fd.Recv.List[0].Names[0]]
+		if recv == nil || !strings.HasSuffix(recv.Type().String(), "encoder.FieldQuery") {
+			continue
+		}
+		if _, isPtr := recv.Type().(*types.Pointer); !isPtr {
+			continue
+		}
+		fn := p.FuncName(fd)
+		rc.Touch(fn)
+		n++
+		key := fn + "/handle-not-written"
+		// aliases of q.Fields
+		alias := map[types.Object]bool{}
+		isFields := func(e ast.Expr) bool {
+			e = core.Unparen(e)
+			if se, ok := e.(*ast.SliceExpr); ok {
+				e = core.Unparen(se.X)
+			}
+			if sel, ok := e.(*ast.SelectorExpr); ok && core.ObjOf(info, sel.X) == recv {
+				if f := core.FieldOf(info, sel); f != nil && f.Name() == "Fields" {
+					return true
+				}
+			}
+			if id, ok := e.(*ast.Ident); ok && alias[core.ObjOf(info, id)] {
+				return true
+			}
+			return false
+		}
+		for changed := true; changed; {
+			changed = false
+			ast.Inspect(fd.Body, func(m ast.Node) bool {
+				as, ok := m.(*ast.AssignStmt)
+				if !ok || len(as.Lhs) != len(as.Rhs) {
+					return true
+				}
+				for i, l := range as.Lhs {
+					if id, isID := l.(*ast.Ident); isID && isFields(as.Rhs[i]) {
+						if o := core.ObjOf(info, id); o != nil && !alias[o] {
+							alias[o] = true
+							changed = true
+						}
+					}
+				}
+				return true
+			})
+		}
+		var writes []string
+		ast.Inspect(fd.Body, func(m ast.Node) bool {
+			switch x := m.(type) {
+			case *ast.AssignStmt:
+				for _, l := range x.Lhs {
+					l = core.Unparen(l)
+					if ix, ok := l.(*ast.IndexExpr); ok && isFields(ix.X) {
+						writes = append(writes, "stores into "+core.Src(p.Fset, l))
+					}
+					if sel, ok := l.(*ast.SelectorExpr); ok && core.ObjOf(info, sel.X) == recv {
+						if f := core.FieldOf(info, sel); f != nil && f.Name() != "hash" {
+							writes = append(writes, "assigns "+core.Src(p.Fset, l))
+						}
+					}
+				}
+			case *ast.CallExpr:
+				name := core.CalleeName(info, x)
+				if strings.HasPrefix(name, "sort.") {
+					for _, a := range x.Args {
+						if isFields(a) {
+							writes = append(writes, "sorts "+core.Src(p.Fset, a)+" in place ("+name+")")
+						}
+					}
+				}
+				if core.IsBuiltin(info, x, "append") && len(x.Args) > 0 && isFields(x.Args[0]) {
+					writes = append(writes, "appends to "+core.Src(p.Fset, x.Args[0]))
+				}
+				if core.IsBuiltin(info, x, "copy") && len(x.Args) == 2 && isFields(x.Args[0]) {
+					writes = append(writes, "copies into "+core.Src(p.Fset, x.Args[0]))
+				}
+			}
+			return true
+		})
+		rc.Check(len(writes) == 0, key, fd.Pos(), "the method only reads the handle (the hash aside)%s", map[bool]string{true: "", false: ": it " + strings.Join(writes, "; ") + " — the handle is shared by every goroutine whose context carries it"}[len(writes) == 0])
+	}
+	if n < 3 {
+		rc.Unknown("encoder/FieldQuery-methods", token.NoPos, "found %d methods of *FieldQuery (confirmed: Hash, MarshalJSON, QueryString)", n)
+	}
+}
